@@ -110,6 +110,10 @@ def discharge_cached(obls, tier, seed, use_cache=True):
     checks: with all of those unchanged the same name denotes the same text, and serialising it again is skipped (the
     dependency closure makes every check carry several thousand shared obligations)"""
     os.makedirs(CACHE, exist_ok=True)
+    if tier == "thorough" and any(getattr(o, "dependency", False) for o in obls):
+        discharge_cached([o for o in obls if getattr(o, "dependency", False)], "quick", seed, use_cache)
+        discharge_cached([o for o in obls if not getattr(o, "dependency", False)], tier, seed, use_cache)
+        return obls
     todo = []
     l1 = _l1_load() if (use_cache and tier != "thorough") else {}
     names = {}
